@@ -225,7 +225,7 @@ def strategy_select(tier):
         cer = {
             "rc": draw(gen.rc_assignment(rc_keys, values=values)),
             "fc": draw(gen.fc_truth(fc_keys)),
-            "hints": gen.hints_for(hint_keys),
+            "hints": draw(gen.hint_texts(hint_keys)),
         }
         return {"parts": parts, "s": text, "cer": cer}
 
